@@ -143,8 +143,8 @@ func hotTimes(r *simrt.Rand, b *Bucket, c *GenCfg) []int64 {
 		} else {
 			h = append(h, ys+tf)
 		}
-		h = append(h, ye-tf)                                    // last interval of the year
-		h = append(h, ye-1)                                     // last nanosecond
+		h = append(h, ye-tf) // last interval of the year
+		h = append(h, ye-1)  // last nanosecond
 		h = append(h, ys+int64(r.Intn(300)+1)*24*int64(time.Hour)+int64(r.Intn(86400))*1e9)
 		if y%4 == 0 {
 			h = append(h, time.Date(y, 2, 29, 12, 0, 0, 0, time.UTC).UnixNano())
@@ -233,7 +233,8 @@ func Gen(seed uint64, c *GenCfg) *Workload {
 	if keepOps != nil {
 		var kept []*WOp
 		for i, o := range w.Ops {
-			if keepOps[i] {
+			// dropping a create would change what later writes mean (auto-creation)
+			if keepOps[i] || o.Kind == "create" {
 				kept = append(kept, o)
 			}
 		}
